@@ -5,6 +5,7 @@ CONSTANTS
   MaxT = 2
   Kinds = {"way"}
   UnannChoices = {0}
+  LocKinds = {"n"}
   BreakAtLate = TRUE
 SPECIFICATION Spec
 INVARIANTS GeomAt1 GeomAt2
